@@ -66,6 +66,13 @@ def points(tier: str) -> List[Dict[str, Any]]:
             if depth >= 3:
                 for seq in itertools.product(ev3, repeat=3):
                     pts.append({"age": age, "jitter": jit, "events": list(seq)})
+    # the same on an IPv6 socket (source addresses are 4-tuples there)
+    for age in ("recent", "old"):
+        for e in events:
+            pts.append({"age": age, "jitter": 0.0, "events": [e], "fam": "v6"})
+        for seq in itertools.product([x for x in events if x[0] in (1, 1001)], repeat=2):
+            if age == "recent" or depth >= 3:
+                pts.append({"age": age, "jitter": 0.0, "events": list(seq), "fam": "v6"})
     return pts
 
 
@@ -84,8 +91,9 @@ def execute(p: Dict[str, Any], mode: str) -> Tuple[List[Tuple[float, tuple, byte
     from zeroconf.asyncio import AsyncServiceBrowser
 
     alpha = {x[0]: x for x in alphabet()}
+    v6 = p.get("fam") == "v6"
     with World(rand=RandPolicy.const(p["jitter"])) as w:
-        host = w.new_zeroconf()
+        host = w.new_zeroconf(mode="single6" if v6 else "single")
         zc = host.zc
         log: List[tuple] = []
 
@@ -107,13 +115,14 @@ def execute(p: Dict[str, Any], mode: str) -> Tuple[List[Tuple[float, tuple, byte
         w.advance({"recent": 100, "old": 40_000, "ancient": 1_200_000}[p["age"]])
         t0 = w.now_ms
         n0 = len(w.net.trace)
-        proto = host.protocol_for()
+        import socket as _socket
+        proto = host.protocol_for(family=_socket.AF_INET6 if v6 else _socket.AF_INET)
         for gap, name in [tuple(e) for e in p["events"]]:
             w.advance(gap)
             _, data, port, has_qu = alpha[name]
             times = 2 if mode == "dup-all" or (mode == "dup-qm" and not has_qu) else 1
             for _ in range(times):
-                proto.datagram_received(data, ("10.0.0.99", port))
+                proto.datagram_received(data, ("fe80::99", port, 0, 3) if v6 else ("10.0.0.99", port))
             w.settle()
         w.advance(4000)
         trace = [(round(s.t_us / 1000 - t0, 3), s.dest[:2], s.data) for s in w.net.trace[n0:] if s.host == host.name]
